@@ -433,6 +433,38 @@ func f2static(b Bounds, y func(string, *Program)) {
 			}
 		}
 	}
+	// the static declaration nested inside each kind of construct (a declaration is found wherever it
+	// is written, not only at the top of the function body)
+	places := []string{"if", "else", "elseif", LFor, LWhile, LDoWhile, LForeach, "switch-case", "switch-default", "if-in-loop", "switch-in-if"}
+	for _, place := range places {
+		for _, form := range []string{"post++", "=+"} {
+			inner := []*Stmt{Static("n", Int(0)), f2update(form, "n"), Echo(Str("f"), Var("n"), Str(";"))}
+			var body []*Stmt
+			switch place {
+			case "if":
+				body = []*Stmt{If(Bool(true), inner...)}
+			case "else":
+				body = []*Stmt{IfElse(Bool(false), []*Stmt{EchoS("x")}, inner)}
+			case "elseif":
+				st := If(Bool(false), EchoS("x"))
+				st.Elifs = []Elif{{Cond: Bool(true), Body: inner}}
+				body = []*Stmt{st}
+			case LFor, LWhile, LDoWhile, LForeach:
+				body = []*Stmt{Loop(place, "c", 1, inner...)}
+			case "switch-case":
+				body = []*Stmt{Switch(Int(1), Case{Val: Int(0), Body: []*Stmt{EchoS("x"), Break(1)}}, Case{Val: Int(1), Body: append(append([]*Stmt{}, inner...), Break(1))})}
+			case "switch-default":
+				body = []*Stmt{Switch(Int(5), Case{Val: Int(0), Body: []*Stmt{EchoS("x"), Break(1)}}, Case{Body: append(append([]*Stmt{}, inner...), Break(1))})}
+			case "if-in-loop":
+				body = []*Stmt{Loop(LFor, "c", 2, If(Bool(true), inner...))}
+			case "switch-in-if":
+				body = []*Stmt{If(Bool(true), Switch(Int(1), Case{Val: Int(1), Body: append(append([]*Stmt{}, inner...), Break(1))}))}
+			}
+			f := &Func{Name: "f", Body: body}
+			main := []*Stmt{Assign("n", Int(7)), ExprS(Call("f")), ExprS(Call("f")), ExprS(Call("f")), Echo(Str(" n="), Var("n"), Str("\n"))}
+			y(fmt.Sprintf("static-in/%s.%s", place, form), &Program{Funcs: []*Func{f}, Main: main})
+		}
+	}
 	// one static cell shared by all activations of a recursive function
 	for _, form := range f2Updates {
 		for _, when := range []string{"pre", "post"} {
